@@ -101,6 +101,9 @@ var glslKeywords = map[string]struct{}{
 	"sizeof":        {}, "cast": {},
 	"namespace": {}, "using": {},
 
+	// Helper functions the writer emits under fixed names
+	"naga_modf": {}, "naga_frexp": {},
+
 	// Built-in variables (vertex)
 	"gl_VertexID": {}, "gl_InstanceID": {},
 	"gl_Position": {}, "gl_PointSize": {}, "gl_ClipDistance": {}, "gl_CullDistance": {},
